@@ -11,8 +11,11 @@
   shared names, comparison filters, `Aggregate`) evaluated by `IR.eval` (what the code generator's
   `reduce` computes).  Both are tied to the Rust code on every run (`c06.build`, `c06.run`).
 
-  `C06_statement` (plan answer = Spec answer for every rule of the fragment) is refuted only by `sum` over values
-  whose partial sums leave the i64 range (saturation per step).  `C06_partial` is the strongest part proved for *all* plans of the builder's shape:
+  `C06_statement` (plan answer = Spec answer for every rule of the fragment) has no known counterexample any more
+  (head order, push-down, SIP wildcard columns and per-step saturation of `sum` are repaired).
+  `C06_valuations` proves it per aggregate, in terms of the Spec's valuations `DL.bodyEnvs`, for the plain
+  fragment (`ruleOk`: no negation, atoms of distinct variables and wildcards, comparisons over bound
+  variables and integer constants, integer data), including `avg`.  `C06_partial` is the strongest part proved for *all* plans of the builder's shape:
   the join tree below the `Aggregate` has duplicate-free rows over set-valued relations (each
   satisfying valuation appears exactly once), and the `Aggregate` node returns exactly one row per
   distinct group key with exact count / sum / min / max / count_distinct over those rows.
@@ -21,6 +24,7 @@ import ILV.Lemmas.IRAgg
 import ILV.Lemmas.IRSetPlan
 import ILV.Model.IRBuild
 import ILV.Model.AggSpec
+import ILV.Lemmas.IRAggVal
 namespace ILV.Props.C06
 open ILV ILV.IR
 
@@ -29,18 +33,12 @@ def C06_statement : Prop :=
     AggSpec.dbIsSet db = true → IRBuild.buildRule r = some t → AggSpec.specAnswer db r = some want →
     SetEq (answer db t) want
 
-def rBad : DL.Rule := { hrel := "a", hargs := [.agg .sum "Z"], body := [.pos { rel := "e", args := [.var "X", .var "Z"] }] }
-def dbBad : Db :=
-  [("e", [[.i64 0, .i64 (-(2^63))], [.i64 1, .i64 (-(2^63))], [.i64 2, .i64 (2^63 - 1)], [.i64 3, .i64 (2^63 - 1)]])]
-
-/-- `a(sum<Z>) <- e(X,Z)` over `Z = MIN, MIN, MAX, MAX`: the exact total is `-2`, the saturating fold in
-    tuple order loses one `MIN` and yields `MAX - 1` (known finding `sum_partial_saturation`). -/
-theorem C06_refuted : ¬ C06_statement := by
-  intro h
-  have := h dbBad rBad (.aggregate (.scan "e" ["X", "Z"]) [] [(.sum, 1)] ["sum_Z"]) [[.i64 (-2)]]
-    (by decide) (by decide) (by decide) [.i64 (-2)]
-  revert this
-  decide
+/-- the input that refuted the statement before the repair of `sum` (`a(sum<Z>) <- e(X,Z)` over
+    `Z = MIN, MIN, MAX, MAX`): the plan now answers the exact total `-2`, as the Spec. -/
+example :
+    let r : DL.Rule := { hrel := "a", hargs := [.agg .sum "Z"], body := [.pos { rel := "e", args := [.var "X", .var "Z"] }] }
+    let db : Db := [("e", [[.i64 0, .i64 (-(2^63))], [.i64 1, .i64 (-(2^63))], [.i64 2, .i64 (2^63 - 1)], [.i64 3, .i64 (2^63 - 1)]])]
+    (IRBuild.buildRule r).map (answer db) = some [[.i64 (-2)]] ∧ AggSpec.specAnswer db r = some [[.i64 (-2)]] := by decide
 
 /-- the head order is restored by the `Map` that `build_aggregation` now appends: for
     `a(count<Z>, X) <- e(X,Z)` (the input that failed before the repair) plan answer = Spec answer. -/
@@ -59,7 +57,7 @@ def ValuesWF (rows : List Tuple) : Prop := ∀ t ∈ rows, ∀ v ∈ t, ILV.Prop
     1. the rows of `J` are pairwise distinct (one per satisfying valuation);
     2. the output has exactly one row per distinct group key, namely `key ++ aggregate values`;
     3. `count` is the number of (distinct) rows of the group, `count_distinct` the number of distinct
-       values, `sum` the exact integer sum when the absolute values fit in i64, `min`/`max` an element of
+       values, `sum` the exact integer sum clamped once to the i64 range, `min`/`max` an element of
        the group's column that is ≤ / ≥ all others in `Ord for Value`. -/
 theorem C06_partial (db : Db) (i : Node) (gb : List Nat) (aggs : List (Agg × Nat)) (s : List String)
     (hwf : wf db (.aggregate i gb aggs s) = true) (hset : isSetPlan i = true) (hdb : DbSet db) :
@@ -74,8 +72,8 @@ theorem C06_partial (db : Db) (i : Node) (gb : List Nat) (aggs : List (Agg × Na
     (∀ k c, aggVal (groupOf (eval db i) gb k) (.countDistinct, c) =
         .i64 ((dedupVals ((groupOf (eval db i) gb k).filterMap (fun t => t[c]?))).length : Nat)
         ∧ (dedupVals ((groupOf (eval db i) gb k).filterMap (fun t => t[c]?))).Nodup) ∧
-    (∀ k c, (((groupOf (eval db i) gb k).map (colI64 c)).map Int.natAbs).sum < 2^63 →
-        aggVal (groupOf (eval db i) gb k) (.sum, c) = .i64 (((groupOf (eval db i) gb k).map (colI64 c)).foldl (· + ·) 0)) ∧
+    (∀ k c, aggVal (groupOf (eval db i) gb k) (.sum, c) =
+        .i64 (satI64 (((groupOf (eval db i) gb k).map (colI64 c)).foldl (· + ·) 0))) ∧
     (ValuesWF (eval db i) → ∀ k c m, valMin ((groupOf (eval db i) gb k).filterMap (fun t => t[c]?)) = some m →
         aggVal (groupOf (eval db i) gb k) (.min, c) = m ∧
         m ∈ (groupOf (eval db i) gb k).filterMap (fun t => t[c]?) ∧
@@ -95,7 +93,7 @@ theorem C06_partial (db : Db) (i : Node) (gb : List Nat) (aggs : List (Agg × Na
   · simpa [eval] using agg_one_row_per_group (eval db i) gb aggs
   · intro k c; exact agg_count_exact _ gb k c
   · intro k c; exact ⟨rfl, nodup_dedupVals _⟩
-  · intro k c h; exact agg_sum_exact _ c h
+  · intro k c; exact agg_sum_clamped _ c
   · intro hv k c m hm
     have := valMin_spec _ (colWF hv k c) m hm
     exact ⟨by simp [aggVal, hm], this.1, this.2⟩
@@ -120,5 +118,140 @@ example : DbSet dbOk := by
   unfold Db.get dbOk
   simp only [List.lookup]
   split <;> (try split) <;> simp
+
+/-! ## C06 over the Spec's body valuations
+
+`ruleOk` (decidable): no negation; positive atoms with distinct variables and wildcards over
+relations of the right arity; comparisons between bound variables and integer constants; integer
+data.  `E = DL.bodyEnvs db.get r` is the Spec's list of satisfying valuations (one per combination
+of stored tuples, so a wildcard column contributes one valuation per stored value). -/
+
+open ILV.IRBuild in
+/-- **C06 in terms of valuations.** For the body plan `B` of a rule of the fragment and the `Aggregate`
+    the builder puts on it (`group_by` = the columns of the group variables `gbv`):
+    1. the rows of `B` are, in order, in one-to-one correspondence with the valuations `E`
+       (every column named by a variable holds the variable's value);
+    2. the output has exactly one row per distinct binding of the group variables over `E`, namely
+       that binding followed by the aggregate values;
+    3. for an aggregated variable `x`: `count` = number of valuations of the group, `sum` = the exact
+       sum of `x` over them clamped to i64, `min`/`max` = an attained bound of those values,
+       `count_distinct` = the size of a duplicate-free list with the same members, `avg` = the
+       binary64 mean of a permutation of those values (`f64` addition from `-0.0`, then one division). -/
+theorem C06_valuations (db : Db) (r : DL.Rule) (B : Node) (hok : ruleOk db r = true) (hB : bodyPlan r = some B)
+    (gbv : List String) (gb : List Nat) (hgb : optMapM (fun x => firstIdx x (schema B) 0) gbv = some gb)
+    (hgV : ∀ x ∈ gbv, x ∈ r.posVars) (aggs : List (Agg × Nat)) (s : List String) :
+    F2 (fun row env => Inv r.posVars (schema B) row env ∧ IntRow row) (eval db B) (DL.bodyEnvs db.get r) ∧
+    (∀ o ∈ eval db (.aggregate B gb aggs s), ∃ env ∈ DL.bodyEnvs db.get r,
+        o = keyOf gbv env ++ aggs.map (aggVal (groupOf (eval db B) gb (keyOf gbv env)))) ∧
+    (∀ env ∈ DL.bodyEnvs db.get r,
+        keyOf gbv env ++ aggs.map (aggVal (groupOf (eval db B) gb (keyOf gbv env))) ∈ eval db (.aggregate B gb aggs s)) ∧
+    (eval db (.aggregate B gb aggs s)).length = (dedup ((DL.bodyEnvs db.get r).map (keyOf gbv))).length ∧
+    ∀ (x : String) (c : Nat), firstIdx x (schema B) 0 = some c → x ∈ r.posVars → ∀ k : Tuple,
+      aggVal (groupOf (eval db B) gb k) (.count, c) =
+        .i64 (((DL.bodyEnvs db.get r).filter (fun env => keyOf gbv env == k)).length : Nat) ∧
+      aggVal (groupOf (eval db B) gb k) (.sum, c) =
+        .i64 (satI64 (isum ((valsOf (DL.bodyEnvs db.get r) gbv k x).map toI64))) ∧
+      (valsOf (DL.bodyEnvs db.get r) gbv k x ≠ [] →
+        aggVal (groupOf (eval db B) gb k) (.min, c) ∈ valsOf (DL.bodyEnvs db.get r) gbv k x ∧
+        ∀ v ∈ valsOf (DL.bodyEnvs db.get r) gbv k x, Value.cmp (aggVal (groupOf (eval db B) gb k) (.min, c)) v ≠ .gt) ∧
+      (valsOf (DL.bodyEnvs db.get r) gbv k x ≠ [] →
+        aggVal (groupOf (eval db B) gb k) (.max, c) ∈ valsOf (DL.bodyEnvs db.get r) gbv k x ∧
+        ∀ v ∈ valsOf (DL.bodyEnvs db.get r) gbv k x, Value.cmp v (aggVal (groupOf (eval db B) gb k) (.max, c)) ≠ .gt) ∧
+      (∃ D : List Value, D.Nodup ∧ (∀ v, v ∈ D ↔ v ∈ valsOf (DL.bodyEnvs db.get r) gbv k x) ∧
+        aggVal (groupOf (eval db B) gb k) (.countDistinct, c) = .i64 (D.length : Nat)) ∧
+      (∃ L : List Value, L.Perm (valsOf (DL.bodyEnvs db.get r) gbv k x) ∧
+        aggVal (groupOf (eval db B) gb k) (.avg, c) =
+          .f64 (F64.div (L.foldl (fun acc v => F64.add acc (toF64 v)) (F64.neg 0)) (F64.ofInt L.length))) := by
+  have hF := body_rows_envs db r B hok hB
+  have hkeys := keys_eq hF gbv gb hgb hgV
+  refine ⟨hF, ?_, ?_, ?_, ?_⟩
+  · intro o ho
+    obtain ⟨t, ht, rfl⟩ := agg_row_of_group (by simpa [eval] using ho)
+    obtain ⟨env, he, hr⟩ := F2.exists_right hF t ht
+    exact ⟨env, he, by rw [project_eq_keyOf hr.1 gbv gb hgb hgV]⟩
+  · intro env he
+    obtain ⟨t, ht, hr⟩ := F2.exists_left hF env he
+    have := agg_group_has_row (gb := gb) (aggs := aggs) ht
+    rw [project_eq_keyOf hr.1 gbv gb hgb hgV] at this
+    simpa [eval] using this
+  · have := (agg_one_row_per_group (eval db B) gb aggs).1
+    simpa [eval, hkeys] using this
+  · intro x c hc hx k
+    have hcol := group_column hF gbv gb hgb hgV k hc hx
+    have hperm := groupOf_column_perm hF gbv gb hgb hgV k hc hx
+    have hsomeG : ∀ t ∈ groupOf (eval db B) gb k, (t[c]?).isSome = true := by
+      intro t ht
+      have := (mem_groupOf.1 ht)
+      exact hcol.2 t (by simp [List.mem_filter, this.1, this.2])
+    -- all values are integers, hence well-formed
+    have hwf : ∀ v ∈ (groupOf (eval db B) gb k).filterMap (fun t => t[c]?), ILV.Props.C31.Value.WF v := by
+      intro v hv
+      obtain ⟨t, ht, e⟩ := List.mem_filterMap.1 hv
+      obtain ⟨env, _, hr⟩ := F2.exists_right hF t (mem_groupOf.1 ht).1
+      obtain ⟨n, hn⟩ := hr.2 v (List.mem_of_getElem? e)
+      subst hn; trivial
+    refine ⟨?_, ?_, ?_, ?_, ?_, ?_⟩
+    · rw [agg_count_exact]
+      congr 2
+      exact forall2_length (group_rows_envs hF gbv gb hgb hgV k)
+    · rw [agg_sum_clamped, map_col_eq hsomeG]
+      congr 2
+      exact isum_perm (hperm.map toI64)
+    · intro hne
+      have hne' : (groupOf (eval db B) gb k).filterMap (fun t => t[c]?) ≠ [] := fun e => by
+        rw [e] at hperm; exact hne (List.Perm.nil_eq hperm).symm
+      cases hm : valMin ((groupOf (eval db B) gb k).filterMap (fun t => t[c]?)) with
+      | none => exact absurd (valMin_none hm) hne'
+      | some m =>
+        have hs := valMin_spec _ hwf m hm
+        have e : aggVal (groupOf (eval db B) gb k) (.min, c) = m := by simp [aggVal, hm]
+        rw [e]
+        exact ⟨hperm.mem_iff.1 hs.1, fun v hv => hs.2 v (hperm.mem_iff.2 hv)⟩
+    · intro hne
+      have hne' : (groupOf (eval db B) gb k).filterMap (fun t => t[c]?) ≠ [] := fun e => by
+        rw [e] at hperm; exact hne (List.Perm.nil_eq hperm).symm
+      cases hm : valMax ((groupOf (eval db B) gb k).filterMap (fun t => t[c]?)) with
+      | none => exact absurd (valMax_none hm) hne'
+      | some m =>
+        have hs := valMax_spec _ hwf m hm
+        have e : aggVal (groupOf (eval db B) gb k) (.max, c) = m := by simp [aggVal, hm]
+        rw [e]
+        exact ⟨hperm.mem_iff.1 hs.1, fun v hv => hs.2 v (hperm.mem_iff.2 hv)⟩
+    · exact ⟨dedupVals ((groupOf (eval db B) gb k).filterMap (fun t => t[c]?)), nodup_dedupVals _,
+        fun v => mem_dedupVals.trans hperm.mem_iff, rfl⟩
+    · refine ⟨(groupOf (eval db B) gb k).filterMap (fun t => t[c]?), hperm, ?_⟩
+      have e : aggVal (groupOf (eval db B) gb k) (.avg, c) =
+          .f64 (F64.div ((groupOf (eval db B) gb k).foldl (fun acc t => F64.add acc (match t[c]? with | some v => toF64 v | none => 0)) (F64.neg 0))
+            (F64.ofInt (groupOf (eval db B) gb k).length)) := rfl
+      rw [e, length_filterMap_some hsomeG]
+      exact congrArg (fun z => Value.f64 (F64.div z (F64.ofInt ↑(groupOf (eval db B) gb k).length)))
+        (foldl_col_eq hsomeG (F64.neg 0))
+
+-- the theorem applies to the SIP witness rule `a(X, count<Z>) <- w(X, Y, _), e(Y, Z)` over two `w` facts
+-- that differ only in the wildcard column: two valuations, count 2
+open ILV.IRBuild in
+/-- the plan the builder emits for an aggregate rule is that `Aggregate` on the body plan (under the
+    `Map` restoring head order when an aggregate is not last), grouped by the head variables' columns -/
+theorem C06_rule_shape (r : DL.Rule) (t : Node) (h : buildRule r = some t) (hagg : r.hargs.any isAggH = true) :
+    ∃ B gb aggs s, bodyPlan r = some B ∧
+      optMapM (fun x => firstIdx x (schema B) 0) (r.hargs.filterMap varOfH) = some gb ∧
+      (t = .aggregate B gb aggs s ∨ ∃ proj hs, t = .map (.aggregate B gb aggs s) proj hs) := by
+  rw [buildRule_eq] at h
+  cases hB : bodyPlan r with
+  | none => simp [hB] at h
+  | some B =>
+    simp only [hB, Option.bind_some] at h
+    obtain ⟨gb, aggs, s, h1, h2⟩ := buildHead_agg B r.hargs t h hagg
+    exact ⟨B, gb, aggs, s, rfl, h1, h2⟩
+
+def exRule : DL.Rule :=
+  DL.Rule.mk "a" [.var "X", .agg .count "Z"]
+    [.pos (DL.Atom.mk "w" [.var "X", .var "Y", .wild]), .pos (DL.Atom.mk "e" [.var "Y", .var "Z"])]
+
+def exDb : Db := [("w", [[.i64 1, .i64 2, .i64 0], [.i64 1, .i64 2, .i64 1]]), ("e", [[.i64 2, .i64 5]])]
+
+open ILV.IRBuild in
+example : ruleOk exDb exRule = true ∧ (bodyPlan exRule).isSome = true ∧ (DL.bodyEnvs exDb.get exRule).length = 2 ∧
+    (buildRule exRule).map (answer exDb) = some [[.i64 1, .i64 2]] := by decide
 
 end ILV.Props.C06
